@@ -96,8 +96,8 @@ package misc
 
 //@ func mnemonicToBin
 //@   props C14 C10 C09 C15
-//@   panics "word count = %d must be even" when spec.ntok(strof(mnemonic)) % 2 != 0
-//@   panics "invalid word in mnemonic" when spec.ntok(strof(mnemonic)) % 2 == 0 && !allInList(mnemonic, spec.ntok(strof(mnemonic)))
+//@   panics[C10,C09,C14] "word count = %d must be even" when spec.ntok(strof(mnemonic)) % 2 != 0
+//@   panics[C10,C09,C14] "invalid word in mnemonic" when spec.ntok(strof(mnemonic)) % 2 == 0 && !allInList(mnemonic, spec.ntok(strof(mnemonic)))
 //@   ensures len(result) == 3 * spec.ntok(strof(mnemonic)) / 2
 //@   ensures[C10,C09] forall u_ :: 0 <= u_ && 2 * u_ < spec.ntok(strof(mnemonic)) ==> result[3*u_] == tokIdx(mnemonic, 2*u_) / 16 && result[3*u_+1] == (tokIdx(mnemonic, 2*u_) % 16) * 16 + tokIdx(mnemonic, 2*u_+1) / 256 && result[3*u_+2] == tokIdx(mnemonic, 2*u_+1) % 256
 //@   ensures[C10,C09] forall t_ :: 0 <= t_ && t_ < spec.ntok(strof(mnemonic)) ==> spec.val12(result, t_) == tokIdx(mnemonic, t_)
@@ -137,17 +137,17 @@ package misc
 
 //@ func MnemonicToSeedBin
 //@   props C14 C10 C09 C15
-//@   panics "word count = %d must be even" when spec.ntok(strof(mnemonic)) % 2 != 0
-//@   panics "invalid word in mnemonic" when spec.ntok(strof(mnemonic)) % 2 == 0 && !allInList(mnemonic, spec.ntok(strof(mnemonic)))
-//@   panics "unexpected MnemonicToSeedBin output size" when spec.ntok(strof(mnemonic)) % 2 == 0 && allInList(mnemonic, spec.ntok(strof(mnemonic))) && spec.ntok(strof(mnemonic)) != 32
+//@   panics[C10,C09,C14] "word count = %d must be even" when spec.ntok(strof(mnemonic)) % 2 != 0
+//@   panics[C10,C09,C14] "invalid word in mnemonic" when spec.ntok(strof(mnemonic)) % 2 == 0 && !allInList(mnemonic, spec.ntok(strof(mnemonic)))
+//@   panics[C10,C09,C14] "unexpected MnemonicToSeedBin output size" when spec.ntok(strof(mnemonic)) % 2 == 0 && allInList(mnemonic, spec.ntok(strof(mnemonic))) && spec.ntok(strof(mnemonic)) != 32
 //@   ensures[C10,C09] forall t_ :: 0 <= t_ && t_ < 32 ==> spec.val12(result[0:], t_) == tokIdx(mnemonic, t_)
 //@   ensures[C10,C09] forall u_ :: 0 <= u_ && u_ < 16 ==> result[3*u_] == tokIdx(mnemonic, 2*u_) / 16 && result[3*u_+1] == (tokIdx(mnemonic, 2*u_) % 16) * 16 + tokIdx(mnemonic, 2*u_+1) / 256 && result[3*u_+2] == tokIdx(mnemonic, 2*u_+1) % 256
 
 //@ func MnemonicToExtendedSeedBin
 //@   props C14 C10 C09 C15
-//@   panics "word count = %d must be even" when spec.ntok(strof(mnemonic)) % 2 != 0
-//@   panics "invalid word in mnemonic" when spec.ntok(strof(mnemonic)) % 2 == 0 && !allInList(mnemonic, spec.ntok(strof(mnemonic)))
-//@   panics "unexpected MnemonicToExtendedSeedBin output size" when spec.ntok(strof(mnemonic)) % 2 == 0 && allInList(mnemonic, spec.ntok(strof(mnemonic))) && spec.ntok(strof(mnemonic)) != 34
+//@   panics[C10,C09,C14] "word count = %d must be even" when spec.ntok(strof(mnemonic)) % 2 != 0
+//@   panics[C10,C09,C14] "invalid word in mnemonic" when spec.ntok(strof(mnemonic)) % 2 == 0 && !allInList(mnemonic, spec.ntok(strof(mnemonic)))
+//@   panics[C10,C09,C14] "unexpected MnemonicToExtendedSeedBin output size" when spec.ntok(strof(mnemonic)) % 2 == 0 && allInList(mnemonic, spec.ntok(strof(mnemonic))) && spec.ntok(strof(mnemonic)) != 34
 //@   ensures[C10,C09] forall t_ :: 0 <= t_ && t_ < 34 ==> spec.val12(result[0:], t_) == tokIdx(mnemonic, t_)
 //@   ensures[C10,C09] forall u_ :: 0 <= u_ && u_ < 17 ==> result[3*u_] == tokIdx(mnemonic, 2*u_) / 16 && result[3*u_+1] == (tokIdx(mnemonic, 2*u_) % 16) * 16 + tokIdx(mnemonic, 2*u_+1) / 256 && result[3*u_+2] == tokIdx(mnemonic, 2*u_+1) % 256
 
